@@ -82,6 +82,7 @@ func runC05(ctx *core.Ctx) {
 	})
 	c05EmptyStream(ctx)
 	c05TypesStream(ctx)
+	c05UnsignedStream(ctx)
 }
 
 // ---- running one path ------------------------------------------------------------------------
